@@ -65,10 +65,10 @@ def float_params(topo, env):
     return {n: env[n] for n in T_.param_names(topo)}
 
 
-def numpy_float(topo, env, style="array", flags=None, order=None):
+def numpy_float(topo, env, style="array", flags=None, order=None, int_states=False):
     """real NumPy engine on float arrays.  Returns ((el, state) -> list[float], None) or (None, exc)."""
     P = float_params(topo, env)
-    X = runs.float_inputs(topo, env, style)
+    X = runs.float_inputs(topo, env, style, int_states)
     with warnings.catch_warnings():
         warnings.simplefilter("ignore")
         try:
